@@ -3,7 +3,7 @@
 seedfacts.py) and print which properties report a violation. Fast development loop; the authoritative run is tools/seedrun.py (full ./check)."""
 import sys, os, glob, json, subprocess, concurrent.futures as cf
 ROOT = os.path.dirname(os.path.dirname(os.path.abspath(__file__)))
-seeds = sys.argv[1:] or ["base"] + sorted(os.path.basename(os.path.dirname(p)) for p in glob.glob(os.path.join(ROOT, "seeded", "*", "patch.diff")) + glob.glob(os.path.join(ROOT, "selftest", "*", "patch.diff")))
+seeds = sys.argv[1:] or ["base"] + sorted(os.path.basename(os.path.dirname(p)) for p in glob.glob(os.path.join(ROOT, "seeded", "*", "patch.diff")) + glob.glob(os.path.join(ROOT, "selftest", "*", "patch.diff")) + glob.glob(os.path.join(ROOT, "benign", "*", "patch.diff")))
 ALL = [f"C{i:02d}" for i in range(1, 21)]
 def one(args):
     s, c = args
@@ -21,7 +21,7 @@ for s in seeds:
     own = s.split("-")[0]
     print(f"{s:7s} own={'Y' if own in hit else '-'} caught by {hit or 'NONE'}" + (f"  ERR {odd}" if odd else ""))
     if s != "base" and "--write" in os.environ.get("SM", ""):
-        with open(os.path.join(ROOT, "seeded" if os.path.isdir(os.path.join(ROOT, "seeded", s)) else "selftest", s, "detect.txt"), "w") as fo:
+        with open(os.path.join(ROOT, next(d_ for d_ in ("seeded", "selftest", "benign") if os.path.isdir(os.path.join(ROOT, d_, s))), s, "detect.txt"), "w") as fo:
             fo.write("# written by tools/seedmatrix.py: every ./check Cnn run on the facts extracted from /repo + this patch\n")
             for c in hit:
                 fo.write(f"{c} exit=1\n")
